@@ -48,7 +48,7 @@ def valid_pn(pn_str: str) -> bool:
     for place in deduplicated_string:
         if place != "-":
             for y in place:
-                if not y.upper() in BELL_NAMES:
+                if y not in BELL_NAMES:
                     return False
 
     return True
